@@ -4,6 +4,7 @@ import (
 	"fmt"
 	"hash/fnv"
 	"io"
+	"regexp"
 	"strconv"
 	"strings"
 	"sync"
@@ -251,7 +252,7 @@ func (o *obsCollector) observe(tx *gorm.DB) {
 		}
 		sb.WriteString(ev.Kind)
 		sb.WriteByte(' ')
-		sb.WriteString(ev.SQL)
+		sb.WriteString(savepointName.ReplaceAllString(ev.SQL, "sp<n>")) // save-point names are random per call
 		sb.WriteString(" [")
 		for i, a := range ev.Args {
 			if i > 0 {
@@ -274,6 +275,20 @@ func (o *obsCollector) observe(tx *gorm.DB) {
 	o.env.Rec.Reset()
 	o.out = append(o.out, sb.String())
 }
+
+// runFin executes a finisher; a panic inside gorm is part of the observation (it is compared with the
+// isolated replay like any other outcome: a call list that panics on its own is not an interference).
+func runFin(f int, db *gorm.DB, hm bool, oc *obsCollector) (tx *gorm.DB) {
+	defer func() {
+		if r := recover(); r != nil {
+			oc.out = append(oc.out, fmt.Sprintf("PANIC: %v", r))
+			tx = nil
+		}
+	}()
+	return finishers[f].Run(db, hm, oc.observe)
+}
+
+var savepointName = regexp.MustCompile(`\bsp\d+\b`)
 
 func (o *obsCollector) result() string { return strings.Join(o.out, "  ;;  ") }
 
@@ -374,7 +389,7 @@ func replayAlone(s spec) (res string) {
 		db = db.Session(&gorm.Session{})
 	}
 	oc.begin()
-	finishers[s.Fin].Run(db, hasModel(s.Base, s.Fork), oc.observe)
+	runFin(s.Fin, db, hasModel(s.Base, s.Fork), oc)
 	res = oc.result()
 	if s.Real && s.Maker == mkBegin && H != nil {
 		oc.env.Quiet(func() { H.Rollback() })
@@ -666,7 +681,7 @@ func (w *worker) run(hs *hist, fresh bool, trace io.Writer) (fail *failure) {
 		for _, pf := range fins {
 			s.Fin = pf
 			oc.begin()
-			finishers[pf].Run(hdl, hasModel(s.Base, s.Fork), oc.observe)
+			runFin(pf, hdl, hasModel(s.Base, s.Fork), oc)
 			if !fresh {
 				cnt.probes++
 			}
@@ -743,7 +758,7 @@ func (w *worker) run(hs *hist, fresh bool, trace io.Writer) (fail *failure) {
 				break
 			}
 			oc.begin()
-			fk.tx = finishers[fk.fin].Run(fk.db, hasModel(hs.Base, fk.ops), oc.observe)
+			fk.tx = runFin(fk.fin, fk.db, hasModel(hs.Base, fk.ops), oc)
 			fk.status = 2
 			s := spec{Real: hs.Real, Base: hs.Base, Maker: hs.Maker, Fork: fk.ops, Fin: fk.fin}
 			if !fresh {
@@ -764,14 +779,14 @@ func (w *worker) run(hs *hist, fresh bool, trace io.Writer) (fail *failure) {
 			}
 			s := spec{Real: hs.Real, Base: hs.Base, Maker: hs.Maker, Fork: fk.ops, ForkHandle: true, Fin: e.Fin}
 			oc.begin()
-			finishers[e.Fin].Run(fk.db, hasModel(hs.Base, fk.ops), oc.observe)
+			runFin(e.Fin, fk.db, hasModel(hs.Base, fk.ops), oc)
 			if f := compare("reusable handle changed", "handle made from fork "+fk.name+" executed", s, oc.result()); f != nil {
 				return f
 			}
 		case evExecH:
 			s := spec{Real: hs.Real, Base: hs.Base, Maker: hs.Maker, Fin: e.Fin}
 			oc.begin()
-			finishers[e.Fin].Run(H, hasModel(hs.Base), oc.observe)
+			runFin(e.Fin, H, hasModel(hs.Base), oc)
 			if f := compare("reusable handle changed", "handle H executed", s, oc.result()); f != nil {
 				return f
 			}
